@@ -105,4 +105,45 @@ theorem C13_idem (env : Env) (cfg : Config) (t t' : Tree) (h : t.genStats env cf
     t'.genStats env cfg = .ok t' :=
   tree_genStats_idem env cfg t t' h
 
+/-! ## Known defect: multi-byte encodings are not decoded before parsing
+
+`generate_stats` resolves the newline through the diff's declared encoding but
+hands the *raw, still encoded* lines to the hunk parser, which looks for the
+ASCII bytes `@@`, `-`, `+`.  With a UTF-16-LE diff no header is recognised, the
+whole diff is "garbage", and zeros are stored. -/
+
+/-- an environment whose codecs all behave like UTF-16-LE on ASCII text -/
+def utf16Env : Env :=
+  { canon := fun n => .ok n
+    encode := fun _ t => .ok (t.flatMap fun c => [c.toUInt8, 0])
+    decode := fun _ b => .ok (b.map (·.toNat))
+    loadsText := fun _ => .ok (.obj [])
+    loadsBytes := fun _ => .ok (.obj [])
+    dumps := fun _ => .ok [] }
+
+def witnessCfg : Config := { chunk := 96, boms := [], defaultIndent := 4, defaultEncoding := [] }
+
+/-- `"@@ -1 +1 @@\n-a\n+b\n".encode('utf-16-le')`: one deletion, one insertion -/
+def utf16Diff : Bytes := (b!"@@ -1 +1 @@\n-a\n+b\n").flatMap fun c => [c, 0]
+
+def utf16File : FileSec :=
+  { newFile with diff := ⟨.diff, [(b!"encoding", .str (tx b!"utf-16-le"))], .bytes utf16Diff⟩ }
+
+/-- **Witness (known defect).** The UTF-16-LE diff with one `-` and one `+` line
+is split on the right newline (`\n\0`), parsed without error, and reported as
+`0` deletions, `0` insertions, `0` lines changed — whereas the hunk parser
+counts `1` and `1` on the same lines once decoded. -/
+theorem C13_multibyte_witness :
+    statsNewline utf16Env witnessCfg utf16File utf16Diff = .ok [10, 0] ∧
+    utf16File.genStats utf16Env witnessCfg =
+      .ok { utf16File with metaSec := { utf16File.metaSec with
+              content := .dict (.obj [(tx b!"stats", .obj (fileStats 0 0))]) } } ∧
+    Hunks.parse [b!"@@ -1 +1 @@", b!"-a", b!"+b"] true =
+      .ok { hunks := [{ context := none,
+                        orig := { first := some 0, last := some 0, numLines := 1, changed := 1, start := 0 },
+                        modified := { first := some 0, last := some 0, numLines := 1, changed := 1, start := 0 },
+                        pre := 0, post := 0 }],
+            processed := 3, deletes := 1, inserts := 1 } :=
+  ⟨rfl, rfl, by decide⟩
+
 end Diffx.C13
